@@ -84,7 +84,7 @@ func auditProblems(wd string, exp *ref.Result, ti *mon.TraceIndex) (ps []mon.Pro
 func c10(args []string) {
 	c := chk.New("C10", "exploration", args)
 	c.Build(false)
-	c.Rule("[stale audit files] history: run with one tagging rule, output files deleted while their .audit.json files stay, run with another tagging rule - the records the second run writes carry the second run's tags only; generated graphs (a quarter of the commands carry a free-text argument with JSON-escape look-alikes such as \\u0026, printf verbs or backslashes) with multi-input / multi-output tasks, parameters, MapToTags components (tags consumed downstream in commands and default output names), StreamToSubStream + joined in-ports, fan-in / fan-out, Prepend, depth <= 6; oracle: every finalized output has a parsable <path>.audit.json equal to the reference lineage tree in ProcessName, Command, Params, Tags, OutFiles and Upstream key set, recursively down to the source files (empty records), timing sane (start <= finish, duration >= 0, start non-zero); the recorded command equals the argv the command itself logged; parameter ports that exist only through InParam(name) (value used in the SetOut pattern, not in the command) belong to the record too. distinct_nontrivial = distinct (graph shape, config) with >= 3 audit records of depth >= 2")
+	c.Rule("[stale audit files] history: run with one tagging rule, output files deleted while their .audit.json files stay, run with another tagging rule - the records the second run writes carry the second run's tags only; generated graphs (a quarter of the commands carry a free-text argument with JSON-escape look-alikes such as \\u0026, printf verbs or backslashes) with multi-input / multi-output tasks, parameters, MapToTags components (tags consumed downstream in commands and default output names), StreamToSubStream + joined in-ports, fan-in / fan-out, Prepend, depth <= 6; oracle: every finalized output has a parsable <path>.audit.json equal to the reference lineage tree in ProcessName, Command, Params, Tags, OutFiles and Upstream key set, recursively down to the source files (empty records), timing sane (start <= finish, duration >= 0, start non-zero); the recorded command equals the argv the command itself logged; a tag attached with an empty value and filled in by a later tagging step; parameter ports that exist only through InParam(name) (value used in the SetOut pattern, not in the command) belong to the record too. distinct_nontrivial = distinct (graph shape, config) with >= 3 audit records of depth >= 2")
 	c.Assume("ids and absolute times are not compared", "MapToTags is only placed on streams it consumes alone (the component mutates the record it shares with the producer; with sibling consumers that is the C12 race)")
 	rng := c.Rand("c10")
 	type job struct {
@@ -146,6 +146,26 @@ func c10(args []string) {
 			c.Broken("reference cannot evaluate the tag-zip shape: " + exp.Err)
 		}
 		jobs = append(jobs, &job{s, exp, Cfg{Buf: []int{1, 3, 128}[rep%3], Procs: []int{1, 2, 4}[rep%3], Sched: fmt.Sprintf("%d,300,600", rng.Intn(1<<30))}})
+	}
+	// directed shape: a tag that is attached with an empty value first and filled in by a later tagging step (qc = "" ->
+	// qc = pass): the later value is on every record downstream of the second step
+	for rep := 0; rep < c.Pick(2, 6); rep++ {
+		s := &spec.Spec{Name: fmt.Sprintf("tagfill%d", rep), MaxTasks: 4, Sources: map[string]string{"q1.txt": "q1\n", "q2.txt": "q2\n"}}
+		in, o1 := []spec.PortDecl{{Name: "in"}}, []spec.PortDecl{{Name: "out"}}
+		kind := []string{spec.KCmd, spec.KGoFunc}[rep%2]
+		s.Procs = append(s.Procs, &spec.Proc{Name: "src", Kind: spec.KFileSource, Files: []string{"q1.txt", "q2.txt"}},
+			&spec.Proc{Name: "A", Kind: spec.KCmd, Cmd: spec.BuildCmd("A", in, o1, nil, nil, nil), Outs: []*spec.Out{{Port: "out", Pattern: "{i:in|basename}.A.out"}}},
+			&spec.Proc{Name: "T1", Kind: spec.KMapToTags, Tags: []*spec.TagRule{{Key: "qc", Rule: "blank"}, {Key: "sample", Rule: "stem"}}},
+			&spec.Proc{Name: "B", Kind: kind, Cmd: spec.BuildCmd("B", in, o1, nil, nil, nil), Outs: []*spec.Out{{Port: "out", Pattern: "{i:in|basename}.B.out"}}},
+			&spec.Proc{Name: "T2", Kind: spec.KMapToTags, Tags: []*spec.TagRule{{Key: "qc", Rule: "const:pass"}}},
+			&spec.Proc{Name: "C", Kind: spec.KCmd, Cmd: spec.BuildCmd("C", in, o1, nil, map[string]string{"q": "in.qc"}, nil), Outs: []*spec.Out{{Port: "out", Pattern: "{i:in|basename}.C.out"}}})
+		s.Conns = append(s.Conns, &spec.Conn{From: "src.out", To: "A.in"}, &spec.Conn{From: "A.out", To: "T1.in"}, &spec.Conn{From: "T1.out", To: "B.in"},
+			&spec.Conn{From: "B.out", To: "T2.in"}, &spec.Conn{From: "T2.out", To: "C.in"})
+		exp := evalRef(s, nil)
+		if exp.Err != "" {
+			c.Broken("reference cannot evaluate the tag-fill shape: " + exp.Err)
+		}
+		jobs = append(jobs, &job{s, exp, Cfg{Buf: []int{1, 128}[rep%2], Procs: []int{1, 2, 4}[rep%3], NoHooks: rep%2 == 1}})
 	}
 	// directed shape: parameter ports that do not appear in the command pattern (created by InParam(name) only; the
 	// value is used in the SetOut pattern): their values belong to the task's record like any other parameter,
